@@ -58,5 +58,7 @@ Step(m, e) ==
          ELSE IF m.builder = "live" THEN Bad(m, "builder never freed")
          ELSE IF m.selsFreed # m.sels THEN Bad(m, "a selector was never freed")
          ELSE m
+    \* failures are reported through return codes and the last-error string, never by aborting the process
+    [] e.op = "process_died" -> Bad(m, "the process aborted / crashed while executing a permitted C API history")
     [] OTHER -> m
 =============================================================================
